@@ -9,7 +9,7 @@ from .eval import Unsupported, PY_EXC
 class Contract:
     def __init__(self, qual, params="", returns=None, requires=(), ensures=(), raises=None, may_raise=(), modifies=(),
                  loops=None, effects=(), trusted=None, pure=False, allocates=None, ensures_raise=None, ghost=None,
-                 exact_raises=True, props=(), yields=None, logs=(), inline_ok=False, fn_override=None, closure_env=None, notes=""):
+                 exact_raises=True, props=(), yields=None, logs=(), defines=(), inline_ok=False, fn_override=None, closure_env=None, notes=""):
         self.qual = qual
         self.params = parse_params(params)
         self.returns = returns
@@ -27,6 +27,7 @@ class Contract:
         self.exact_raises = exact_raises
         self.props = list(props)
         self.logs = list(logs)
+        self.defines = list(defines)     # definitional clauses: assumed at call sites, not proof obligations (listed as trusted)
         self.yields = yields                        # element type of a generator's yielded values
         self.fn_override = fn_override
         self.closure_env = closure_env
@@ -524,7 +525,7 @@ class CallMixin:
             if feasible(st.pc + [cnd]):
                 r = st.fork()
                 r.pc.append(cnd)
-                for cl in c.ensures_raise.get(exc, []):
+                for cl in list(c.ensures_raise.get(exc, [])) + list(c.ensures_raise.get("*", [])):
                     r.assume(self.spec_eval_in(cl, r, env, pre))
                 self.raise_exc(r, exc)
                 r.trail.append((f"{c.qual} raises {exc}", True))
@@ -533,7 +534,7 @@ class CallMixin:
             r = st.fork()
             r.pc.append(fresh("mayraise." + exc, Bool))
             self.havoc_modifies(c, r, env)
-            for cl in c.ensures_raise.get(exc, []):
+            for cl in list(c.ensures_raise.get(exc, [])) + list(c.ensures_raise.get("*", [])):
                 r.assume(self.spec_eval_in(cl, r, env, pre))
             self.raise_exc(r, exc)
             r.trail.append((f"{c.qual} may raise {exc}", True))
@@ -551,7 +552,7 @@ class CallMixin:
             else:
                 res = self.fresh_of(c.returns, st, "ret." + c.qual.split(".")[-1])
         env2 = dict(env, result=res)
-        for cl in c.ensures:
+        for cl in list(c.ensures) + list(c.defines):
             st.assume(self.spec_eval_in(cl, st, env2, pre))
         if not feasible(st.pc, 5000):
             # vacuity guard: the callee's postcondition contradicts what the caller knows — a contract (or encoding) error, never a proof
@@ -647,10 +648,20 @@ class CallMixin:
         vals.update({k: v for k, v in kwargs.items() if k not in ("*", "**")})
         for f, v in vals.items():
             self.on_ast_field(st, cls, f, v, node)
-            st.H[f"ast.{f}"] = z3.Store(st.comp(f"ast.{f}", Val), r, box(self.materialize(v, st)))
+            bv = box(self.materialize(v, st))
+            st.H[f"ast.{f}"] = z3.Store(st.comp(f"ast.{f}", Val), r, bv)
+            self.mark_nodeowned(st, bv)
         n = vref(r, cls=cls)
         self.on_ast_new(st, n, cls, vals, node)
         return [(st, n)]
+
+    def mark_nodeowned(self, st, bv):
+        """ghost: an object stored into a field of an AST node is from now on referred to by a node"""
+        if z3.is_app_of(bv, z3.Z3_OP_DT_CONSTRUCTOR) and bv.decl().name() != "R":
+            return
+        own = st.comp("list.nodeowned")
+        r = Val.r(bv)
+        st.write("list.nodeowned", r, z3.Or(Val.is_R(bv), z3.Select(own, r)))
 
     def on_ast_field(self, st, cls, field, v, node):
         pass
